@@ -170,6 +170,12 @@ pub fn run(ctx: &Ctx) -> i32 {
             4 | 5 => {
                 cfg.fmt = Some(Fmt::Indexed);
                 cfg.tilemaps = family == 5;
+                if (i / 8) % 3 == 0 {
+                    // pixel buffers beyond 256 pixels
+                    cfg.max_cel = 24;
+                    cfg.max_w = 24;
+                    cfg.max_h = 24;
+                }
                 let (sp, _) = gen::gen_sprite(&mut rng, &cfg);
                 res.feature = gen::features(&sp) ^ 0x4e47;
                 negative_missing_index(&mut res, &sp, &mut rng, family == 5);
